@@ -19,7 +19,7 @@ size; sequences that are sliced/concatenated are `List`s.
 -/
 namespace Ens.Assign
 
-inductive Err | dataInvalid | indexError | attributeError | valueError | improperlyConfigured
+inductive Err | dataInvalid | indexError | valueError | improperlyConfigured
   deriving Repr, DecidableEq
 
 /-- float64 restricted to rationals and `+inf` (`none`). -/
@@ -169,12 +169,12 @@ structure Partitioned (α β : Type) where
   deriving Repr, DecidableEq
 
 /-- `RaggedArray(array, lengths=lengths)` for a flat array and lengths that are not all equal
-(ra.py L537-539: `_data` is only bound when `len(array) > 0`; L569-576). -/
+(ra.py: `_data = np.array(array)` whenever `lengths` is given — also for an empty array —, then
+`_row_views(_data, lengths)` = `partition_list`, whose DataInvalid is re-raised as DataInvalid). -/
 def raggedArray {α} (data : List α) (lens : List Nat) : Except Err (Parts α) :=
-  if data.length = 0 then .error .attributeError
-  else match partitionList data lens with
-    | .error e => .error e
-    | .ok rows => .ok (.ragged data lens rows)
+  match partitionList data lens with
+  | .error e => .error e
+  | .ok rows => .ok (.ragged data lens rows)
 
 /-- util.py L135: `all(lengths[0] == l for l in lengths)` for non-empty `lengths`. -/
 def allEqual : List Nat → Bool
